@@ -266,6 +266,10 @@ def sig(x, depth=0, memo=None):
     if x is None or isinstance(x, (bool, int, float, str, bytes, complex)):
         return f"{type(x).__name__}:{x!r}"
     if isinstance(x, (pd.Timestamp, pd.Timedelta, np.dtype, pd.api.extensions.ExtensionDtype, slice, type)) or callable(x):
+        if not isinstance(x, type) and type(x).__repr__ is object.__repr__ and hasattr(x, "__dict__"):
+            # instance of a callable class without a repr of its own (dask's ParquetFunctionWrapper / CSVFunctionWrapper ...): the default
+            # repr is the memory address, so two equal instances (every materialisation of a reader creates its own) must compare by state
+            return "OB:" + type(x).__qualname__ + ":" + sig(vars(x), depth + 1, memo)
         return f"{type(x).__name__}:{x!r}"
     try:
         import cloudpickle
